@@ -9,9 +9,11 @@ COQ_PRELUDE = I.COQ_PRELUDE
 COQ_CHECK = "check"
 COQ_CASE_TYPE = "case_t"
 TRUSTED = I.TRUSTED
-ASSUMPTIONS = c04.ASSUMPTIONS + ["side samplers yield the same list on every pass"]
-RULE = ("same generator as C04 with 1-4 configs favoured; non-trivial = at least one side pass after a main update "
-        "or a zero budget with configs; distinct by (geometry, budget, config intervals)")
+ASSUMPTIONS = c04.ASSUMPTIONS + ["every iteration of a side sampler yields len(sampler) valid indices (any order, may "
+                                 "change from pass to pass); set_epoch is not called on side samplers"]
+RULE = ("same generator as C04 with 1-4 configs favoured (thorough: up to 6), 40% of the longer side samplers yield "
+        "another order on every pass; non-trivial = at least one side pass after a main update or a zero budget with "
+        "configs; distinct by (geometry, budget, config intervals)")
 search_cases = I.search_cases
 shrink = I.shrink
 run_impl = I.run_impl
@@ -24,16 +26,21 @@ def gen_cases(rng, tier):
     out = []
     n = 700 if tier == "quick" else 6000
     while len(out) < n:
-        c = I.gen_case(rng, big=(tier == "thorough" and rng.random() < 0.3))
+        c = I.gen_bounded(rng, size="mid" if (tier == "thorough" and rng.random() < 0.3) else "small")
         if c["sides"] or rng.random() < 0.1:
             out.append(c)
-    # the real DataLoader with per-dataset collators: 0 and 2 workers
-    n_loader = 4 if tier == "quick" else 60
+    if tier == "thorough":
+        while len(out) < n + 700:
+            c = I.gen_bounded(rng, size="large")
+            if c["sides"]:
+                out.append(c)
+    # the real DataLoader with per-dataset collators: 0 workers (thorough: 0 and 2)
+    n_loader = 12 if tier == "quick" else 60
     k = 0
     while k < n_loader:
-        c = I.gen_case(rng)
+        c = I.gen_bounded(rng)
         if c["sides"] and c["start"] is None and c["N"] <= 16 and c["budget"][1] > 0:
-            c["loader"] = 0 if k % 2 == 0 else 2
+            c["loader"] = 0 if (tier == "quick" and k >= 4) or k % 2 == 0 else 2
             out.append(c)
             k += 1
     return out
@@ -59,9 +66,9 @@ def oracle(case, obs):
     e0 = I.start_epoch_of(case)
     if isinstance(e0, str) or obs["result"] != "ok":
         return None
-    exp = I.spec_stream(case, e0)
+    exp = I.spec_stream(case, e0, pass0=obs.get("pass0"))
     a, b = segments(case, exp), segments(case, obs["log"])
-    if case["budget"][1] == 0:
+    if any(v == 0 for v in I.budgets(case).values()):
         if exp != obs["log"]:
             return f"zero budget: expected exactly one full pass over every config {exp[:8]}.. got {obs['log'][:8]}.."
     n = min(len(a), len(b))
@@ -70,21 +77,12 @@ def oracle(case, obs):
             return (f"side passes after main update #{k} (counted from the start of this run) differ: "
                     f"expected {a[k][:10]} got {b[k][:10]}")
     # no batch mixes datasets; every index resolves to the dataset/sample it was drawn for
-    offs = [0, case["dsN"]]
-    for sc in case["sides"]:
-        offs.append(offs[-1] + sc["dslen"])
-
-    def ds_of(i):
-        for d in range(len(offs) - 1):
-            if offs[d] <= i < offs[d + 1]:
-                return d, i - offs[d]
-        return None, None
     if isinstance(obs.get("batches"), list):
         for bt in obs["batches"]:
-            if len({ds_of(i)[0] for i in bt}) > 1:
+            if len({I.ds_of(case, i)[0] for i in bt}) > 1:
                 return f"batch {bt} mixes datasets"
     for r in obs.get("resolve", []):
-        d, j = ds_of(r[0])
+        d, j = I.ds_of(case, r[0])
         if len(r) != 3 or r[1] != d or r[2] != [d, j]:
             return f"index {r[0]} should resolve to dataset {d} sample {j}, concat dataset answered {r[1:]}"
     # through the real DataLoader: one dataset per batch, collated by that dataset's collator
@@ -92,16 +90,7 @@ def oracle(case, obs):
         lb = obs.get("loader_batches")
         if not isinstance(lb, list):
             return f"DataLoader(num_workers={case['loader']}) failed: {lb}"
-        expb = []
-        cur = []
-        for ev in exp:
-            if ev[0] != "Y":
-                continue
-            cur.append(ev[2])
-            if ev[1]:
-                d = ds_of(cur[0])[0]
-                expb.append([d, [[d, ds_of(i)[1]] for i in cur]])
-                cur = []
+        expb = I.expected_loader_batches(case, exp)
         if lb != expb:
             k = next((i for i in range(min(len(lb), len(expb))) if lb[i] != expb[i]), min(len(lb), len(expb)))
             return (f"DataLoader(num_workers={case['loader']}) batch {k}: expected [collator tag, samples] "
@@ -117,4 +106,5 @@ def nontrivial_key(case, obs):
     if not any(segs[1:]) and not (case["budget"][1] == 0 and case["sides"]):
         return None
     return (case["N"], case["B"], case["drop_last"], case["D"], tuple(case["budget"]),
-            tuple((s["ene"], s["enu"], s["ens"], s["bs"], len(s["idx"])) for s in case["sides"]))
+            tuple((s["ene"], s["enu"], s["ens"], s["bs"], len(s["idx"]), s.get("shuffle") is not None)
+                  for s in case["sides"]))
